@@ -286,6 +286,19 @@ def run(ctx):
     r4.check(it.call_function(fm, [], {"key": "survey", "keys": ["xyz", "_survey", "choices"]}, None, fm.node) is None, "find_sheet_misspellings[no candidate]", "no candidate -> no message", fm.loc())
     it.reset([])
     r4.check(it.call_function(fm, [], {"key": "survey", "keys": []}, None, fm.node) is None, "find_sheet_misspellings[no sheets]", "no sheet names -> no message", fm.loc())
+    # a sheet that IS there under its exact supported name (but, say, without data rows) is never a misspelling - of
+    # itself or of another supported name; evaluated with the real distance function
+    it_real = ctx.interp("C20.R4")
+    for key_ in ("survey", "choices", "settings", "external_choices", "entities"):
+        it_real.reset([])
+        try:
+            msg_ = it_real.call_function(fm, [], {"key": key_, "keys": ["survey", "choices", "settings", "external_choices", "entities", "osm"]}, None, fm.node)
+        except Raised as e:
+            msg_ = f"raises {e.exc_name}"
+        r4.check(msg_ is None, f"find_sheet_misspellings[all sheets exactly named, looking for {key_}]", "no suggestion: every sheet carries a supported name", fm.loc(), why_fail=repr(msg_)[:160])
+    it_real.reset([])
+    msg_ = it_real.call_function(fm, [], {"key": "settings", "keys": ["survey", "setings", "choices"]}, None, fm.node)
+    r4.check(isinstance(msg_, str) and "'setings'" in msg_ and "'survey'" not in msg_, "find_sheet_misspellings[one misspelt sheet among exact ones]", "only the misspelt name is suggested", fm.loc(), why_fail=repr(msg_)[:160])
     lv = ctx.func("pyxform.utils:levenshtein_distance", "C20.R4")
     it = ctx.interp("C20.R4")
     for a, b, want in (("kitten", "sitting", 3), ("survey", "surveys", 1), ("", "abc", 3), ("abc", "", 3), ("abc", "abc", 0), ("choices", "chioces", 2), ("settings", "setting", 1), ("a", "b", 1), ("flaw", "lawn", 2)):
